@@ -2,7 +2,8 @@
 JSON decoding of cases whose op list may contain poll results (`Msg.XOp`), shared by the drivers
 of C09 and C10.  Everything else (graph, observations) is `SchedJson`.
 
-  op : <Sched op> | {"op":"poll","task":"p/name","msg":text,"sn":n?}
+  op : <Sched op> | {"op":"pollres","task":"p/name","state":text,"sn":n}   (result of a jobs-poll command for job sn:
+       state = submitted | started | succeeded | failed | submission failed | a message text of the job status file)
 
 Message texts: the job-submission failure event is the text "submission failed" in cylc-flow
 (`TaskEventsManager.EVENT_SUBMIT_FAILED`), which the `Sched` model spells "submit-failed" (the name of
@@ -21,9 +22,9 @@ def mapText (t : String) : String :=
 
 def parseXOp (j : Json) : Except String XOp := do
   match jStrField? j "op" with
-  | some "poll" =>
+  | some "pollres" =>
     let (p, n) ← parseTaskId (← req (jStrField? j "task") "task")
-    return .poll p n ((jNatField? j "sn").getD 0) (mapText (← req (jStrField? j "msg") "msg"))
+    return .poll p n (← req (jNatField? j "sn") "sn") (mapText (← req (jStrField? j "state") "state"))
   | some "msg" =>
     let (p, n) ← parseTaskId (← req (jStrField? j "task") "task")
     return .base (.msg p n (← req (jNatField? j "sn") "sn") (mapText (← req (jStrField? j "msg") "msg")))
